@@ -159,15 +159,17 @@ partial def jeq : MJson → MJson → Bool
   | .obj a, .obj b => a.length == b.length && (a.zip b).all (fun p => p.1.1 == p.2.1 && jeq p.1.2 p.2.2)
   | _, _ => false
 
+/-- level 1 outcome: the encoded value as canonical JSON and as the exact compact text `json.Marshal` prints -/
+def encOut (v : MJson) : Json := Json.mkObj [("json", toLean v), ("text", txt (Mcp.Escape.render v))]
+
 def handle (op : String) (j : Json) : Except String Json := do
   match op with
   -- level 1: struct tags
-  | "enc.result" => pure (Json.mkObj [("json", toLean (encodeResult (← resultOfSpec (← j.getObjVal? "v"))))])
-  | "enc.prompt" => pure (Json.mkObj [("json", toLean (encodeGetPrompt (← promptOfSpec (← j.getObjVal? "v"))))])
-  | "enc.resource" =>
-    pure (Json.mkObj [("json", toLean (encodeReadResource (← listOpt j "v" resOfSpec)))])
-  | "enc.tools" =>
-    pure (Json.mkObj [("json", toLean (encodeListTools (← (← getArr j "v").toList.mapM toolOfSpec)))])
+  | "enc.result" => pure (encOut (encodeResult (← resultOfSpec (← j.getObjVal? "v"))))
+  | "enc.prompt" => pure (encOut (encodeGetPrompt (← promptOfSpec (← j.getObjVal? "v"))))
+  | "enc.resource" => pure (encOut (encodeReadResource (← listOpt j "v" resOfSpec)))
+  -- (schemas are printed by kin-openapi in its own key order: canonical JSON only)
+  | "enc.tools" => pure (Json.mkObj [("json", toLean (encodeListTools (← (← getArr j "v").toList.mapM toolOfSpec)))])
   -- level 2: decoders on arbitrary JSON
   | "dec.result" => pure (outcome specOfResult (parseResult (ofLean (j.getObjValD "raw"))))
   | "dec.prompt" => pure (outcome specOfPrompt (parseGetPrompt (ofLean (j.getObjValD "raw"))))
@@ -184,6 +186,13 @@ def handle (op : String) (j : Json) : Except String Json := do
   | "e2e.tools" =>
     let r := parseListTools (fun _ => false) (encodeListTools (← (← getArr j "v").toList.mapM toolOfSpec))
     pure (outcome (fun (p : List ToolDesc × Text) => Json.mkObj [("tools", .arr (p.1.map specOfTool).toArray), ("next", txt p.2)]) r)
+  | "e2e.error" =>
+    let p ← match ← getStr j "path" with
+      | "tool" => pure (Path.tool (← getText j "tool"))
+      | "prompt" => pure Path.prompt
+      | "resource" => pure Path.resource
+      | k => throw s!"path {k}"
+    pure (Json.mkObj [("err", txt (clientErrorText p (← getText j "msg")))])
   -- string and SSE layer
   | "escape" => pure (Json.mkObj [("esc", txt (Mcp.Escape.escape (← getText j "s")))])
   | "render" => pure (Json.mkObj [("text", txt (Mcp.Escape.render (ofLean (j.getObjValD "v"))))])
